@@ -446,6 +446,8 @@ func (prop) Run(c core.Case) core.Outcome {
 		r.runCmd(c)
 	case "biginject":
 		r.runBigInject(c)
+	case "injectseq":
+		r.runInjectSeq(c)
 	default:
 		panic("harness: unknown op " + c.Op)
 	}
@@ -777,7 +779,6 @@ func kindsOf(es []ent) []int {
 
 func (r *runner) runInject(c core.Case) {
 	img := buildImage(c.Args["img"])
-	orig := append([]byte(nil), img...)
 	tbl := pu(c.Args["tbl"], 64)
 	es := parseEnts(c.Args["entries"])
 	entries := toEntries(es)
@@ -812,86 +813,14 @@ func (r *runner) runInject(c core.Case) {
 			}
 		}
 	}
-	valid, ranges := layoutValid(n, tbl, es)
-	// the harness' judgement of "inside the quantifier" against the hypothesis of the theorems
-	r.M("valid-layout", fmt.Sprintf("valid %d %d %s", n, tbl, showEnts(es)), fmt.Sprint(valid))
-	err := entries.Inject(img, tbl)
-	got, gerr := fit.GetEntries(img)
-	rd := "err"
-	if gerr == nil {
-		rd = "ok " + showREntries(got)
-	}
-	r.M("inject+get", "inject "+c.Args["img"]+" "+c.Args["tbl"]+" "+showEnts(es),
-		fmt.Sprintf("%s %d %s", core.ErrClass(err), core.FNV(img), rd))
-
-	// oracle (every layout, also refused / partial injections): only the pointer, the table
-	// and the data ranges are modified
-	bad := -1
-	for i := range img {
-		if img[i] != orig[i] {
-			in := false
-			for _, g := range ranges {
-				if uint64(i) >= g.lo && uint64(i) < g.hi {
-					in = true
-					break
-				}
-			}
-			if !in {
-				bad = i
-				break
-			}
-		}
-	}
-	r.O("inject-frame", "-1", fmt.Sprint(bad))
-	r.O("inject-keeps-size", fmt.Sprint(len(orig)), fmt.Sprint(len(img)))
-
+	sf := newScratchFile(img)
+	defer sf.close()
+	res := r.injectRound(img, sf, c.Args["img"], tbl, es, "")
 	vs := "invalid"
-	if valid {
+	if res.valid {
 		vs = "valid"
 	}
-	r.out.Class = fmt.Sprintf("inject:%s%s,inject=%s,get=%s", pre, vs, core.ErrClass(err), core.ErrClass(gerr))
-	if !valid {
-		return
-	}
-	// ---- inside the quantifier: the property's conclusions, on the implementation's output
-	r.O("inject-ok", "ok", core.ErrClass(err))
-	r.O("get-ok", "ok", core.ErrClass(gerr))
-	// the FIT pointer 0x40 before the end designates the table
-	ptr := binary.LittleEndian.Uint64(img[n-0x40:])
-	r.O("pointer-designates-table", fmt.Sprint(uint64(1<<32)-n+tbl), fmt.Sprint(ptr))
-	s, e, rerr := fit.GetHeadersTableRangeFrom(bytes.NewReader(img))
-	r.O("table-range", fmt.Sprintf("ok %d %d", tbl, tbl+16*uint64(len(es))), fmt.Sprintf("%s %d %d", core.ErrClass(rerr), s, e))
-	// entry 0 carries the magic and the entry count
-	r.O("entry0-magic-count", fmt.Sprintf("_FIT_    %d", len(es)),
-		fmt.Sprintf("%s %d", img[tbl:tbl+8], int(img[tbl+8])|int(img[tbl+9])<<8|int(img[tbl+10])<<16))
-	// same headers, same order, same data bytes, the Go type of the TYPE field
-	if gerr == nil {
-		var want, have []string
-		for _, x := range es {
-			want = append(want, fmt.Sprintf("%d,%s,%s", kindOfTypeField(uint8(x.hdr.TypeAndIsChecksumValid)&0x7f), showHdr(x.hdr), core.Hex(x.data)))
-		}
-		for _, x := range got {
-			b := x.GetEntryBase()
-			have = append(have, fmt.Sprintf("%d,%s,%s", kindOf(x), showHdr(b.Headers), core.Hex(b.DataSegmentBytes)))
-		}
-		r.O("inject-get", strings.Join(want, ";"), strings.Join(have, ";"))
-	}
-	// GetTable gives the same headers
-	t, terr := fit.GetTable(img)
-	var hs []fit.EntryHeaders
-	for _, x := range es {
-		hs = append(hs, x.hdr)
-	}
-	r.O("get-table", "ok "+showHdrs(hs), core.ErrClass(terr)+" "+showHdrs(t))
-	// every data range now holds the data
-	for i, x := range es {
-		if len(x.data) > 0 {
-			off := uint64(x.hdr.Address) - (uint64(1<<32) - n)
-			if !bytes.Equal(img[off:off+uint64(len(x.data))], x.data) {
-				r.O("data-stored", "entry data at its offset", fmt.Sprintf("entry %d differs at offset %d", i, off))
-			}
-		}
-	}
+	r.out.Class = fmt.Sprintf("inject:%s%s,inject=%s,get=%s", pre, vs, res.injCls, res.getCls)
 }
 
 func (r *runner) runGet(c core.Case) {
@@ -917,7 +846,20 @@ func (r *runner) runGet(c core.Case) {
 	}
 	r.M("get", "get "+c.Args["img"], tr+" "+rd)
 	r.out.Class = "get:" + gcls
+	// the other entrances (readers.go): the model's answer holds for each of them, and whatever
+	// they report is what the image holds
+	sf := newScratchFile(img)
+	defer sf.close()
+	for _, rb := range readFlavours(img, sf.f) {
+		rd := "err"
+		if rb.cls == "ok" {
+			rd = "ok " + showREntries(rb.es)
+			r.O("get-reports-image["+rb.name+"]", "same", holdsImage(img, rb.trng, rb.es))
+		}
+		r.M("get["+rb.name+"]", "get "+c.Args["img"], rb.trng+" "+rd)
+	}
 	r.O("get-input-untouched", "same", same(bytes.Equal(img, orig)))
+	r.O("get-input-untouched[file]", fmt.Sprintf("%d same", len(orig)), fmt.Sprintf("%d %s", sf.size(), same(bytes.Equal(sf.prefix(len(orig)), orig))))
 	if gcls == "ok" {
 		// oracle: what is reported is what the image holds — table inside the image, headers are
 		// the table bytes, every data segment is the image bytes at the address-derived offset
@@ -962,6 +904,8 @@ func (p prop) Gen(rd *rand.Rand, tier string) []core.Case {
 	g.genFromJSON(60 * scale)
 	g.genRecalc(60 * scale)
 	g.genInject(420 * scale)
+	g.genMultiData(40 * scale)
+	g.genInjectSeq(40 * scale)
 	g.genGet(80 * scale)
 	g.genCmd(60 * scale)
 	if tier == "thorough" {
@@ -972,26 +916,34 @@ func (p prop) Gen(rd *rand.Rand, tier string) []core.Case {
 	return g.cs
 }
 
-// Shrink: drop one entry (fixing up the count of a FIT header entry 0), shorten data.
+// Shrink: drop one entry (fixing up the count of a FIT header entry 0).
 func (prop) Shrink(c core.Case) []core.Case {
-	if c.Op != "inject" && c.Op != "recalc" {
+	var keys []string
+	switch c.Op {
+	case "inject", "recalc":
+		keys = []string{"entries"}
+	case "injectseq":
+		keys = []string{"entries2", "entries"}
+	default:
 		return nil
 	}
-	es := parseEnts(c.Args["entries"])
 	var out []core.Case
-	for i := len(es) - 1; i >= 1; i-- {
-		var es2 []ent
-		es2 = append(es2, es[:i]...)
-		es2 = append(es2, es[i+1:]...)
-		if int(size24(es2[0].hdr)) == len(es) {
-			setSize(&es2[0].hdr, len(es2))
+	for _, key := range keys {
+		es := parseEnts(c.Args[key])
+		for i := len(es) - 1; i >= 1; i-- {
+			var es2 []ent
+			es2 = append(es2, es[:i]...)
+			es2 = append(es2, es[i+1:]...)
+			if int(size24(es2[0].hdr)) == len(es) {
+				setSize(&es2[0].hdr, len(es2))
+			}
+			a := map[string]string{}
+			for k, v := range c.Args {
+				a[k] = v
+			}
+			a[key] = showEnts(es2)
+			out = append(out, core.Case{Kind: c.Kind, Op: c.Op, Args: a})
 		}
-		a := map[string]string{}
-		for k, v := range c.Args {
-			a[k] = v
-		}
-		a["entries"] = showEnts(es2)
-		out = append(out, core.Case{Kind: c.Kind, Op: c.Op, Args: a})
 	}
 	return out
 }
